@@ -195,7 +195,9 @@ def check_sentinel(ctx, config):
     for name, okf in WANT.items():
         bs = [x for x in db.fn_bodies() if x['kind'] == 'fn' and x['meta'].get('name') == name and (x.get('span') or '').startswith('src/lib.rs')]
         if not bs:
-            ctx.anchor_missing('R6', name)
+            # inlined at its call sites: the arithmetic is then part of the finger-store / return obligations (O1, O2), which are
+            # evaluated on the actual terms; the floor below still requires most of the helpers to exist
+            ctx.note('rounding helper %s does not exist as a function (inlined?)' % name)
             continue
         I6, r6 = arena.run_fn(ctx, bs[0]['id'], config)
         alts = [t for t, _ in arena.alternatives(I6, r6.ret, set())] if r6.ret is not None else []
